@@ -77,17 +77,20 @@ def queries(tier):
                     qs.append(Query("%s-%s-n3" % (nm, OPS[op]), "packed/packed.c", [], defs=dict(d, OP=op, NEL=3), checks="mem", unwind=70, timeout=600))
     else:
         for nm, d in all_insts:
-            qs.append(Query("%s-set-n9" % nm, "packed/packed.c", [], defs=dict(d, OP=0, NEL=9), checks="mem", unwind=70, timeout=900))
-            for nel in range(1, 10):
-                qs.append(Query("%s-set-last-n%d" % (nm, nel), "packed/packed.c", [], defs=dict(d, OP=0, NEL=nel, LASTONLY=1), checks="mem",
-                                unwind=70, timeout=900))
-            for op in (1, 2):
-                qs.append(Query("%s-%s-n9" % (nm, OPS[op]), "packed/packed.c", [], defs=dict(d, OP=op, NEL=9), checks="mem", unwind=70, timeout=900))
             heavy = nm.startswith("tree-") or "micro" not in nm
-            for op in (3, 4, 5, 6, 7):
-                for nel in ((0, 1, 2, 3, 4, 5) if heavy else (3,)):
-                    if nel == 0 and op in (5,):
-                        continue
-                    qs.append(Query("%s-%s-n%d" % (nm, OPS[op], nel), "packed/packed.c", [], defs=dict(d, OP=op, NEL=nel), checks="mem",
-                                    unwind=70, timeout=900))
+            qs.append(Query("%s-set-n9" % nm, "packed/packed.c", [], defs=dict(d, OP=0, NEL=9), checks="mem", unwind=70, timeout=1800))
+            for nel in (range(1, 10) if heavy else (1, 9)):
+                qs.append(Query("%s-set-last-n%d" % (nm, nel), "packed/packed.c", [], defs=dict(d, OP=0, NEL=nel, LASTONLY=1), checks="mem",
+                                unwind=70, timeout=1800))
+            for op in (1, 2):
+                qs.append(Query("%s-%s-n9" % (nm, OPS[op]), "packed/packed.c", [], defs=dict(d, OP=op, NEL=9), checks="mem", unwind=70, timeout=1800))
+            if heavy:
+                for op in (3, 4, 5, 6, 7):
+                    for nel in (0, 1, 2, 3, 4, 5):
+                        if nel == 0 and op in (5,):
+                            continue
+                        if nel >= 4 and not (nm.startswith("tree-") or d["BITS"] in (1, 3, 8, 12, 13, 17, 32)):
+                            continue
+                        qs.append(Query("%s-%s-n%d" % (nm, OPS[op], nel), "packed/packed.c", [], defs=dict(d, OP=op, NEL=nel), checks="mem",
+                                        unwind=70, timeout=3600))
     return qs
